@@ -195,7 +195,7 @@ def marg_D(sc, Dd, U, V, ys, xss):
     return tot
 
 
-def oracle(sc, iters=4, per_class=False):
+def oracle(sc, iters=4, per_class=False, passes=1):
     """drive the three phases with the public per-phase steps; each phase's marginal likelihood must not decrease.
     per_class=True calls every E-step once per class with that class's statistics and hands the list of outputs to the
     M-step — the way `fit` drives the steps for Dask input (one task per class)."""
@@ -211,31 +211,33 @@ def oracle(sc, iters=4, per_class=False):
     tag = " (one E-step call per class)" if per_class else ""
     try:
         n_acc, f_acc = mach.initialize(X, y, K)
-        traj = [marg_V(sc, np.asarray(mach.V))]
-        for _ in range(iters):
-            mach.m_step_v(e(mach.e_step_v, n_acc=n_acc, f_acc=f_acc))
-            traj.append(marg_V(sc, np.asarray(mach.V)))
-        bad = [j for j in range(1, len(traj)) if traj[j] < traj[j - 1] - 1e-8 * (1 + abs(traj[j - 1]))]
-        if bad or not np.all(np.isfinite(traj)):
-            return {"sig": "V-phase-marginal-likelihood-decreases", "what": f"marginal likelihood along the V phase{tag}: {traj}"}
-        ys = np.asarray(mach.finalize_v(X=X, y=y, n_samples_per_class=nspc, n_acc=n_acc, f_acc=f_acc))
-        V = np.asarray(mach.V)
-        traj = [marg_U(sc, np.asarray(mach.U), V, ys)]
-        for _ in range(iters):
-            mach.m_step_u(e(mach.e_step_u, latent_y=ys))
-            traj.append(marg_U(sc, np.asarray(mach.U), V, ys))
-        bad = [j for j in range(1, len(traj)) if traj[j] < traj[j - 1] - 1e-8 * (1 + abs(traj[j - 1]))]
-        if bad or not np.all(np.isfinite(traj)):
-            return {"sig": "U-phase-marginal-likelihood-decreases", "what": f"marginal likelihood along the U phase{tag}: {traj}"}
-        xss = mach.finalize_u(X=X, y=y, n_samples_per_class=nspc, latent_y=ys)
-        U = np.asarray(mach.U)
-        traj = [marg_D(sc, np.asarray(mach.D), U, V, ys, xss)]
-        for _ in range(iters):
-            mach.m_step_d(e(mach.e_step_d, latent_x=xss, latent_y=ys, n_acc=n_acc, f_acc=f_acc))
-            traj.append(marg_D(sc, np.asarray(mach.D), U, V, ys, xss))
-        bad = [j for j in range(1, len(traj)) if traj[j] < traj[j - 1] - 1e-8 * (1 + abs(traj[j - 1]))]
-        if bad or not np.all(np.isfinite(traj)):
-            return {"sig": "D-phase-marginal-likelihood-decreases", "what": f"marginal likelihood along the D phase{tag}: {traj}"}
+        for rep in range(passes):  # passes=2: training is continued on the same machine (V, U, D phases once more)
+            again = " (second pass on the same machine)" if rep else ""
+            traj = [marg_V(sc, np.asarray(mach.V))]
+            for _ in range(iters):
+                mach.m_step_v(e(mach.e_step_v, n_acc=n_acc, f_acc=f_acc))
+                traj.append(marg_V(sc, np.asarray(mach.V)))
+            bad = [j for j in range(1, len(traj)) if traj[j] < traj[j - 1] - 1e-8 * (1 + abs(traj[j - 1]))]
+            if bad or not np.all(np.isfinite(traj)):
+                return {"sig": "V-phase-marginal-likelihood-decreases", "what": f"marginal likelihood along the V phase{tag}{again}: {traj}"}
+            ys = np.asarray(mach.finalize_v(X=X, y=y, n_samples_per_class=nspc, n_acc=n_acc, f_acc=f_acc))
+            V = np.asarray(mach.V)
+            traj = [marg_U(sc, np.asarray(mach.U), V, ys)]
+            for _ in range(iters):
+                mach.m_step_u(e(mach.e_step_u, latent_y=ys))
+                traj.append(marg_U(sc, np.asarray(mach.U), V, ys))
+            bad = [j for j in range(1, len(traj)) if traj[j] < traj[j - 1] - 1e-8 * (1 + abs(traj[j - 1]))]
+            if bad or not np.all(np.isfinite(traj)):
+                return {"sig": "U-phase-marginal-likelihood-decreases", "what": f"marginal likelihood along the U phase{tag}{again}: {traj}"}
+            xss = mach.finalize_u(X=X, y=y, n_samples_per_class=nspc, latent_y=ys)
+            U = np.asarray(mach.U)
+            traj = [marg_D(sc, np.asarray(mach.D), U, V, ys, xss)]
+            for _ in range(iters):
+                mach.m_step_d(e(mach.e_step_d, latent_x=xss, latent_y=ys, n_acc=n_acc, f_acc=f_acc))
+                traj.append(marg_D(sc, np.asarray(mach.D), U, V, ys, xss))
+            bad = [j for j in range(1, len(traj)) if traj[j] < traj[j - 1] - 1e-8 * (1 + abs(traj[j - 1]))]
+            if bad or not np.all(np.isfinite(traj)):
+                return {"sig": "D-phase-marginal-likelihood-decreases", "what": f"marginal likelihood along the D phase{tag}{again}: {traj}"}
         CD = sc["C"] * sc["D"]
         if np.asarray(mach.U).shape != (CD, sc["rU"]) or np.asarray(mach.V).shape != (CD, sc["rV"]) or np.asarray(mach.D).shape != (CD,):
             return {"sig": "subspace-shapes", "what": f"U {np.asarray(mach.U).shape} V {np.asarray(mach.V).shape} D {np.asarray(mach.D).shape}"}
@@ -253,10 +255,12 @@ def search(ctx):
         ctx.case(["s", core.tolist(sc["U"]), core.tolist([[s["f"] for s in c] for c in sc["classes"]])], nontrivial=True)
         per_class = bool(i % 2)
         ctx.count("search:per-class-calls" if per_class else "search:single-call")
-        f = oracle(sc, 3 if ctx.tier == "quick" else 6, per_class)
+        passes = 2 if i % 3 == 2 else 1
+        ctx.count(f"search:passes={passes}")
+        f = oracle(sc, (2 if passes == 2 else 3) if ctx.tier == "quick" else 6, per_class, passes)
         if f and f["sig"] not in seen:
             seen.add(f["sig"])
-            f["input"] = {**{k: sc[k] for k in ("C", "D", "rU", "rV", "jfa", "w", "m", "v", "U", "V", "Dd", "classes", "iters", "interleave", "int_subspaces", "int_counts", "layout") if k in sc}, "per_class": per_class}
+            f["input"] = {**{k: sc[k] for k in ("C", "D", "rU", "rV", "jfa", "w", "m", "v", "U", "V", "Dd", "classes", "iters", "interleave", "int_subspaces", "int_counts", "layout") if k in sc}, "per_class": per_class, "passes": passes}
             fails.append(f)
     return fails
 
@@ -269,7 +273,7 @@ def replay(d):
     sc["V"] = sc["V"].reshape(sc["C"] * sc["D"], sc["rV"])
     sc["classes"] = [[dict(n=np.asarray(s["n"], float), f=np.asarray(s["f"], float), t=s["t"]) for s in c] for c in sc["classes"]]
     sc["sts"] = sc["classes"][0]
-    return oracle(sc, per_class=bool(sc.get("per_class", False)))
+    return oracle(sc, per_class=bool(sc.get("per_class", False)), passes=int(sc.get("passes", 1)))
 
 
 THEOREMS = ["C09_shapes", "C09_D_phase_monotone", "C09_V_step_is_em", "C09_U_step_is_em", "C09_V_phase_monotone", "C09_U_phase_monotone"]
